@@ -59,6 +59,12 @@ class Tpl:
         for s in self.slots():
             if s.key == key:
                 return s
+        # a slot of a template that was inlined into one of this template's slots (helper call, nested format)
+        for s in self.slots():
+            if s.sub is not None:
+                r = s.sub.slot(key)
+                if r is not None:
+                    return r
         return None
 
     def map_text(self, fn):
@@ -217,7 +223,7 @@ class Folder:
                 return base.map_text(lambda s: textwrap.indent(s, pv))
             if isinstance(f, ast.Attribute) and f.attr in ("strip", "rstrip", "lstrip") and not e.args:
                 return self.fold(f.value, d - 1)
-            return None
+            return self._fold_helper_call(e, d)
         if isinstance(e, ast.Name) and self.fn is not None:
             if e.id in func_params(self.fn):
                 return None
@@ -249,6 +255,54 @@ class Folder:
         if isinstance(e, ast.IfExp):
             return None
         return None
+
+    def _fold_helper_call(self, e: ast.Call, d: int) -> Optional[Tpl]:
+        """`self.h(a, b)` / `Class.h(a, b)` / `h(a, b)` where h does nothing but return one text template: the helper's
+        template with its parameters replaced by this call's arguments (defaults for the ones not passed)."""
+        from .prog import bind_call
+        f = e.func
+        target = None
+        if isinstance(f, ast.Attribute) and isinstance(f.value, ast.Name) and self.ci is not None and f.value.id in ("self", "cls", self.ci.qual.split(".")[-1]):
+            m = self.prog.find_method(self.ci, f.attr)
+            if m is not None:
+                drop = not any(isinstance(x, ast.Name) and x.id == "staticmethod" for x in m[1].decorator_list)
+                target = (m[0], m[1], drop)
+        elif isinstance(f, ast.Name) and f.id in self.mi.functions:
+            target = (None, self.mi.functions[f.id], False)
+        if target is None:
+            return None
+        hci, hf, drop = target
+        body = [st for st in hf.body if not (isinstance(st, ast.Expr) and isinstance(st.value, ast.Constant))]
+        if len(body) != 1 or not isinstance(body[0], ast.Return) or body[0].value is None:
+            return None
+        try:
+            b = bind_call(hf, e, drop_self=drop)
+        except Exception:
+            return None
+        params = [a.arg for a in hf.args.args][(1 if drop else 0):]
+        defaults = dict(zip(reversed(params), reversed(hf.args.defaults)))
+        hmi = hci.mod if hci is not None else self.mi
+        t = Folder(self.prog, hmi, None, hci, d - 1).fold(body[0].value, d - 1)
+        if t is None:
+            return None
+
+        def subst(tpl: Tpl) -> Tpl:
+            parts: List[Union[str, Slot]] = []
+            for p_ in tpl.parts:
+                if isinstance(p_, str):
+                    parts.append(p_)
+                    continue
+                ex = p_.expr
+                if isinstance(ex, ast.Name) and ex.id in params:
+                    ex = b.get(ex.id, defaults.get(ex.id))
+                    sub = self.fold(ex, d - 2) if ex is not None else None
+                    parts.append(Slot(p_.key, ex, p_.field, sub))
+                else:
+                    parts.append(Slot(p_.key, ex, p_.field, subst(p_.sub) if p_.sub is not None else None))
+            out = Tpl(parts)
+            out.missing, out.unused, out.formatted = list(tpl.missing), list(tpl.unused), tpl.formatted
+            return out
+        return subst(t)
 
     def const_str(self, e: ast.AST) -> Optional[str]:
         t = self.fold(e)
